@@ -1,12 +1,13 @@
 """C05 - solve() equals the ordered sequence of single-period solves; failures contained."""
 from contracts.c05_solve import SolveContract, SolvePeriodContract
+from contracts.c10_labels import LocateDispatch
 from props.solve_bounded import SolveTScripted
 from verif.crosscheck import TARGETS as _XT, EncoderCrossCheck
 from verif.spec import PropertySpec
 
 PROPERTY = PropertySpec(
     id='C05',
-    contracts=[SolveContract(), SolvePeriodContract()],
+    contracts=[SolveContract(), SolvePeriodContract(), LocateDispatch()],
     bounded=[SolveTScripted()],
     level='other',
     explanation='SolverMixin.solve (with iter_periods and PeriodIter inlined from source) and solve_period are proved against a ghost '
